@@ -38,16 +38,37 @@ impl<S: Storage> TableScanExecutor<S> {
 
         let txn = table.read().await?;
 
+        // The optimizer relies on a scan of the disk storage being ordered by the primary key
+        // (it removes sorts and chooses merge joins and sort aggregations on it, and may prune
+        // the key columns afterwards), so always merge the row-sets in key order. Key columns
+        // that are not requested are scanned as well and dropped from the output.
+        let key_columns = table.ordered_pk_ids();
+        let sorted = self.storage.as_disk().is_some()
+            && !key_columns.is_empty()
+            && !self.columns.is_empty();
+        let output_columns = col_idx.len();
+        if sorted {
+            for id in key_columns {
+                if !col_idx.contains(&StorageColumnRef::Idx(id)) {
+                    col_idx.push(StorageColumnRef::Idx(id));
+                }
+            }
+        }
+
         let mut it = txn
             .scan(
                 &col_idx,
-                ScanOptions::default().with_filter_opt(self.filter),
+                ScanOptions::default()
+                    .with_filter_opt(self.filter)
+                    .with_sorted(sorted),
             )
             .await?;
 
         while let Some(mut x) = it.next_batch(None).await? {
             if self.columns.is_empty() {
                 x = DataChunk::no_column(x.cardinality());
+            } else if x.column_count() > output_columns {
+                x = x.arrays()[..output_columns].iter().cloned().collect();
             }
             yield x;
         }
